@@ -480,7 +480,7 @@ def seq_to_list(eng, st, v, node):
     arr = st.fresh("seql", z3.ArraySort(z3.IntSort(), sort_of(ek)))
     i = z3.Int("seq_i")
     body = getter(i)
-    eng.assume(st, z3.ForAll([i], z3.Implies(z3.And(0 <= i, i < n), arr[i] == eng.coerce(st, body, ek).term), patterns=[arr[i]]))
+    eng.assume(st, qforall([i], z3.Implies(z3.And(0 <= i, i < n), arr[i] == eng.coerce(st, body, ek).term), patterns=[arr[i]]))
     st.heap[e] = z3.Store(eng.harr(st, e), out.term, arr)
     return out
 
@@ -512,8 +512,8 @@ def b_set(eng, st, args, kwargs, node):
         ea = eng.harr(st, e)[v.term]
         ln = eng.list_len(st, v)
         wit = st.fresh("setwit", z3.ArraySort(sort_of(k.elem), z3.IntSort()))
-        eng.assume(st, z3.ForAll([i], z3.Implies(z3.And(0 <= i, i < ln), mem[ea[i]]), patterns=[ea[i]]))
-        eng.assume(st, z3.ForAll([x], z3.Implies(mem[x], z3.And(0 <= wit[x], wit[x] < ln, ea[wit[x]] == x)), patterns=[mem[x]]))
+        eng.assume(st, qforall([i], z3.Implies(z3.And(0 <= i, i < ln), mem[ea[i]]), patterns=[ea[i]]))
+        eng.assume(st, qforall([x], z3.Implies(mem[x], z3.And(0 <= wit[x], wit[x] < ln, ea[wit[x]] == x)), patterns=[mem[x]]))
         cnt = st.fresh("setn", z3.IntSort())
         eng.assume(st, z3.And(cnt >= 0, cnt <= ln, z3.Implies(ln > 0, cnt > 0)))
         st.heap[h] = z3.Store(ha, s.term, mem)
@@ -576,14 +576,14 @@ def b_anyall(eng, st, args, kwargs, node, is_any):
         rng = z3.And([z3.And(0 <= i, i < n)] + conds)
         if is_any:
             return SV(KBool, z3.Exists([i], z3.And(rng, body)))
-        return SV(KBool, z3.ForAll([i], z3.Implies(rng, body)))
+        return SV(KBool, qforall([i], z3.Implies(rng, body)))
     if isinstance(v.kind, KList):
         i = st.fresh("qi", z3.IntSort())
         n = eng.list_len(st, v)
         body = eng.truth(st, eng.list_get(st, v, i))
         if is_any:
             return SV(KBool, z3.Exists([i], z3.And(0 <= i, i < n, body)))
-        return SV(KBool, z3.ForAll([i], z3.Implies(z3.And(0 <= i, i < n), body)))
+        return SV(KBool, qforall([i], z3.Implies(z3.And(0 <= i, i < n), body)))
     raise Unsupported("any/all over %s" % v.kind)
 
 
@@ -768,7 +768,7 @@ def comprehension(eng, st, node, what, frame=None):
         eltc = eng.coerce(st, elt, ek, node)
         if not g.ifs:
             st.heap[n_] = z3.Store(eng.harr(st, n_), out.term, n)
-            eng.assume(st, z3.ForAll([j], z3.Implies(z3.And(0 <= j, j < n), arr[j] == eltc.term), patterns=[arr[j]]))
+            eng.assume(st, qforall([j], z3.Implies(z3.And(0 <= j, j < n), arr[j] == eltc.term), patterns=[arr[j]]))
         else:
             m = st.fresh("compn", z3.IntSort())
             srcidx = st.fresh("compsrc", z3.ArraySort(z3.IntSort(), z3.IntSort()))
@@ -778,13 +778,13 @@ def comprehension(eng, st, node, what, frame=None):
             j2 = z3.Int("cj2")
             st.heap[n_] = z3.Store(eng.harr(st, n_), out.term, m)
             eng.assume(st, z3.And(0 <= m, m <= n))
-            eng.assume(st, z3.ForAll([j], z3.Implies(z3.And(0 <= j, j < m),
+            eng.assume(st, qforall([j], z3.Implies(z3.And(0 <= j, j < m),
                        z3.And(0 <= srcidx[j], srcidx[j] < n, z3.And(conds2), arr[j] == elt2.term, pos[srcidx[j]] == j)),
                        patterns=[arr[j]]))
-            eng.assume(st, z3.ForAll([j, j2], z3.Implies(z3.And(0 <= j, j < j2, j2 < m), srcidx[j] < srcidx[j2]),
+            eng.assume(st, qforall([j, j2], z3.Implies(z3.And(0 <= j, j < j2, j2 < m), srcidx[j] < srcidx[j2]),
                        patterns=[z3.MultiPattern(srcidx[j], srcidx[j2])]))
             conds3, _ = pure_at(j)
-            eng.assume(st, z3.ForAll([j], z3.Implies(z3.And(0 <= j, j < n, z3.And(conds3)),
+            eng.assume(st, qforall([j], z3.Implies(z3.And(0 <= j, j < n, z3.And(conds3)),
                        z3.And(0 <= pos[j], pos[j] < m, srcidx[pos[j]] == j)), patterns=[pos[j]]))
             st.ghost.setdefault("comp", {})[out.term.get_id()] = (srcidx, pos, m)
         st.heap[e_] = z3.Store(eng.harr(st, e_), out.term, arr)
@@ -805,11 +805,11 @@ def comprehension(eng, st, node, what, frame=None):
         vxc = eng.coerce(st, vx, vk, node)
         kk = z3.Const("dc_k", sort_of(kx.kind))
         # keys of the source are distinct when iterating a dict: last-wins is then irrelevant
-        eng.assume(st, z3.ForAll([j], z3.Implies(z3.And(0 <= j, j < n), z3.And(mem[kx.term], wit[kx.term] == j)), patterns=[mem[kx.term]]) if False else z3.BoolVal(True))
+        eng.assume(st, qforall([j], z3.Implies(z3.And(0 <= j, j < n), z3.And(mem[kx.term], wit[kx.term] == j)), patterns=[mem[kx.term]]) if False else z3.BoolVal(True))
         _, (kw, vw) = pure_at(wit[kk])
         vwc = eng.coerce(st, vw, vk, node)
-        eng.assume(st, z3.ForAll([j], z3.Implies(z3.And(0 <= j, j < n), mem[kx.term])))
-        eng.assume(st, z3.ForAll([kk], z3.Implies(mem[kk], z3.And(0 <= wit[kk], wit[kk] < n, kw.term == kk, val[kk] == vwc.term)), patterns=[mem[kk]]))
+        eng.assume(st, qforall([j], z3.Implies(z3.And(0 <= j, j < n), mem[kx.term])))
+        eng.assume(st, qforall([kk], z3.Implies(mem[kk], z3.And(0 <= wit[kk], wit[kk] < n, kw.term == kk, val[kk] == vwc.term)), patterns=[mem[kk]]))
         cnt = st.fresh("dcn", z3.IntSort())
         eng.assume(st, z3.And(cnt >= 0, cnt <= n))
         st.heap[h] = z3.Store(eng.harr(st, h), out.term, mem)
